@@ -37,16 +37,16 @@ type Op struct {
 	// Raw: complete request bytes to send instead (Kind raw).
 	Raw []byte
 	// stream driving
-	Inputs     int  // inputs/ticks the client intends to send (upper bound)
-	CancelAt   int  // -1 none; k: the k-th input (0-based) is a cancel batch
-	Cast       bool // exchange inputs sent as int32 (castable)
+	Inputs   int  // inputs/ticks the client intends to send (upper bound)
+	CancelAt int  // -1 none; k: the k-th input (0-based) is a cancel batch
+	Cast     bool // exchange inputs sent as int32 (castable)
 	// BadCast: the exchange inputs are sent with a non-castable column type
 	// (utf8 "x" for the declared int64): the cast fails on the first turn.
 	BadCast bool
 	// BadCastShape: 0 a string column "x"; 1 the declared column plus an extra
 	// trailing one; 2 a column with another name; 3 no columns at all (empty schema)
 	BadCastShape int
-	WriteAhead int  // extra inputs written before reading the previous output
+	WriteAhead   int // extra inputs written before reading the previous output
 	// AfterCancel: inputs the client still writes after its cancel batch before
 	// closing the input stream (the last of them another cancel batch when
 	// SecondCancel). No turn may run for them and the cancel hook runs once.
@@ -54,7 +54,7 @@ type Op struct {
 	SecondCancel bool
 	// ZeroRowAt: k+1 of the exchange input sent with zero rows (0 = none).
 	ZeroRowAt int
-	InputMeta  []hx.Meta
+	InputMeta []hx.Meta
 	// Expect: filled by the generator/oracle helpers.
 	ExpectErr bool
 }
@@ -69,34 +69,34 @@ type TurnOut struct {
 
 // OpResult is the client-side transcript of one call.
 type OpResult struct {
-	Op        *Op
-	First     *hx.Stream // unary response, or header stream, or init-error stream
-	Header    *hx.Batch
-	InitLogs  []hx.Batch
-	Turns     []TurnOut
-	Sent      int // inputs written (including a cancel batch)
-	Cancelled bool
-	Ended     string // result | error | eos | cancel | abandon
-	ClientErr error  // framing / parse trouble seen by the client
-	AllBatch  []hx.Batch
+	Op         *Op
+	First      *hx.Stream // unary response, or header stream, or init-error stream
+	Header     *hx.Batch
+	InitLogs   []hx.Batch
+	Turns      []TurnOut
+	Sent       int // inputs written (including a cancel batch)
+	Cancelled  bool
+	Ended      string // result | error | eos | cancel | abandon
+	ClientErr  error  // framing / parse trouble seen by the client
+	AllBatch   []hx.Batch
 	DataSchema string
 }
 
 // Session is one connection's worth of calls.
 type Session struct {
-	Sim     *simkern.Sim
-	Srv     *vgirpc.Server
-	Ops     []*Op
-	Results []*OpResult
-	Frag    int
+	Sim          *simkern.Sim
+	Srv          *vgirpc.Server
+	Ops          []*Op
+	Results      []*OpResult
+	Frag         int
 	YieldOnWrite bool
 	// ServerReturned is set when ServeWithContext returns.
-	ServerReturned bool
-	ClientDone     bool
-	CConn, SConn   *hx.Conn
+	ServerReturned         bool
+	ClientDone             bool
+	CConn, SConn           *hx.Conn
 	ServerTask, ClientTask *simkern.Task
 	// Serve, when set, replaces srv.ServeWithContext (unix/tcp variants).
-	Serve func(ctx context.Context, conn *hx.Conn)
+	Serve   func(ctx context.Context, conn *hx.Conn)
 	WireS2C []byte
 	// Shm: a client-owned shared-memory segment. Advertise decides per call
 	// whether the request carries the segment name/size; ShmSend makes the
@@ -116,10 +116,16 @@ type Session struct {
 	// the segment's one-party-at-a-time contract requires — which held pointer
 	// to resolve and free next (-1: none now). Everything still held is
 	// resolved and freed, in ReleaseNow's order, before the client disconnects.
-	Hold       func() bool
-	ReleaseNow func(n int, final bool) int
-	held       []*heldPtr
-	HeldMax    int
+	// AdvertiseBogus decides per call (that does not advertise the real segment)
+	// whether the request advertises a segment the server cannot attach.
+	AdvertiseBogus func(op *Op) bool
+	BogusSent      int
+	bogusN         int
+	onBogus        bool
+	Hold           func() bool
+	ReleaseNow     func(n int, final bool) int
+	held           []*heldPtr
+	HeldMax        int
 	// ExtInput, when set, may replace a (non-cancel) stream input by an
 	// external-location pointer batch the server has to fetch and resolve.
 	ExtInput func(op *Op, k int, b arrow.RecordBatch) arrow.RecordBatch
@@ -141,6 +147,14 @@ type Session struct {
 // materialised from the client's segment and its slot freed.
 func (s *Session) resolve(rec arrow.RecordBatch) (arrow.RecordBatch, bool) {
 	if s.Shm == nil || !vgirpc.IsShmPointerBatch(rec) {
+		return rec, false
+	}
+	if s.onBogus {
+		// the call advertised a segment the server cannot have opened: whatever
+		// this pointer refers to, it is not in a segment of this call
+		if s.ShmErr == nil {
+			s.ShmErr = fmt.Errorf("a pointer batch arrived on a call that advertised a segment the server cannot open")
+		}
 		return rec, false
 	}
 	out, off, release, err := vgirpc.ResolveShmBatch(rec, s.Shm)
@@ -320,9 +334,19 @@ func (s *Session) requestBytes(op *Op) []byte {
 	}
 	m.Keys = append(m.Keys, op.Extra.Keys...)
 	m.Vals = append(m.Vals, op.Extra.Vals...)
+	s.onBogus = false
 	if s.Shm != nil && s.Advertise != nil && s.Advertise(op) {
 		m = m.Add(hx.KShmName, s.Shm.Name()).Add(hx.KShmSize, fmt.Sprint(s.Shm.Size()))
 		s.advertised = true
+	} else if s.Shm != nil && s.AdvertiseBogus != nil && op.Bad == "" && s.AdvertiseBogus(op) {
+		// the client rotates to a segment the server cannot open (its name is
+		// already gone): this call has to be served without shared memory, and
+		// the connection has no segment until one is advertised again
+		s.bogusN++
+		m = m.Add(hx.KShmName, fmt.Sprintf("/vgi-sim-gone-%d", s.bogusN)).Add(hx.KShmSize, "70000")
+		s.advertised = false
+		s.onBogus = true
+		s.BogusSent++
 	}
 	var b arrow.RecordBatch
 	sc := op.Script.Encode()
